@@ -31,3 +31,165 @@ def lammps_pair_table(potentials, cutoff, nr, fp):
             out.write("%d %.8f %.8f %.8f\n" % (n, r, pot.potentialFunction(r), -D(pot.potentialFunction)(r)))
         blocks.append(out.getvalue())
     fp.write("\n".join(blocks))
+
+
+# ---- C02 -------------------------------------------------------------------
+def dlpoly_table(potentials, cutoff, nr, fp):
+    """header delpot = cutoff/(ngrid-4), cutpot = cutoff, ngrid = nr; per potential a species line in two
+    8-character fields, then ngrid energies V(k*delpot), k = 1..ngrid, then ngrid values -r dV/dr at the
+    same r, four 15-character fields per record"""
+    delpot = cutoff / (nr - 4)
+    fp.write(" " * 80 + "\n")
+    fp.write("%15.8e%15.8e%10d\n" % (delpot, cutoff, nr))
+    for pot in potentials:
+        fp.write("%8s%8s\n" % (pot.speciesA, pot.speciesB))
+        row = []
+        for k in range(1, nr + 1):
+            row.append(pot.potentialFunction(k * delpot))
+            if len(row) == 4:
+                fp.write(" % 14.7e % 14.7e % 14.7e % 14.7e\n" % tuple(row))
+                row = []
+        row = []
+        for k in range(1, nr + 1):
+            r = k * delpot
+            row.append(-r * D(pot.potentialFunction)(r))
+            if len(row) == 4:
+                fp.write(" % 14.7e % 14.7e % 14.7e % 14.7e\n" % tuple(row))
+                row = []
+
+
+def ANY():
+    """a field whose value the property does not constrain"""
+    raise NotImplementedError("symbolic only")
+
+
+class _Zero(object):
+    def energy(self, r):
+        return 0.0
+
+
+def _pair_table(pairpots):
+    table = {}
+    for pp in pairpots:
+        table[tuple(sorted([pp.speciesA, pp.speciesB]))] = pp
+    return table
+
+
+# ---- C03 / C04 --------------------------------------------------------------
+def _setfl_head(eampots, nrho, drho, nr, dr, fp):
+    fp.write("\n\n\n")
+    fp.write("%d" % len(eampots))
+    for e in eampots:
+        fp.write(" %s" % e.species)
+    fp.write("\n")
+    fp.write("%d  %20.16e %d  %20.16e  %20.16e\n" % (nrho, drho, nr, dr, ANY()))
+
+
+def _setfl_pairs(eampots, pairpots, nr, dr, scale, fp):
+    table = _pair_table(pairpots)
+    for i in range(len(eampots)):
+        for j in range(i + 1):
+            pp = table.get(tuple(sorted([eampots[i].species, eampots[j].species])), _Zero())
+            for k in range(nr):
+                r = k * dr
+                if scale:
+                    fp.write("% 20.16e\n" % (pp.energy(r) * r))
+                else:
+                    fp.write("% 20.16e\n" % pp.energy(r))
+
+
+def setfl(potentials, eam_potentials, cutoff, nr, cutoff_rho, nrho, fp):
+    """tabulation-class / potable route: the grid is dr = cutoff/(nr-1), drho = cutoff_rho/(nrho-1)"""
+    setfl_api(nrho, cutoff_rho / (nrho - 1), nr, cutoff / (nr - 1), eam_potentials, potentials, fp)
+
+
+def setfl_api(nrho, drho, nr, dr, eam_potentials, potentials, fp):
+    """setfl: header names each element once; per element (in that order) atomic number, mass, lattice
+    constant, lattice type, Nrho values F(i*drho), Nr values rho(i*dr); then for (i, j<=i) Nr values r*phi(r)"""
+    _setfl_head(eam_potentials, nrho, drho, nr, dr, fp)
+    for e in eam_potentials:
+        fp.write("%d %20.16e %20.16e %s\n" % (e.atomicNumber, e.mass, e.latticeConstant, e.latticeType))
+        for i in range(nrho):
+            fp.write("% 20.16e\n" % e.embeddingFunction(i * drho))
+        for i in range(nr):
+            fp.write("% 20.16e\n" % e.electronDensityFunction(i * dr))
+    _setfl_pairs(eam_potentials, potentials, nr, dr, True, fp)
+
+
+def setfl_fs(potentials, eam_potentials, cutoff, nr, cutoff_rho, nrho, fp):
+    setfl_fs_api(nrho, cutoff_rho / (nrho - 1), nr, cutoff / (nr - 1), eam_potentials, potentials, fp)
+
+
+def setfl_fs_api(nrho, drho, nr, dr, eam_potentials, potentials, fp):
+    """eam/fs: as setfl, but the block of element X holds, for each element Y in header order, the density
+    that an X neighbour contributes at a Y site: EAMPotential(Y).electronDensityFunction[X]"""
+    _setfl_head(eam_potentials, nrho, drho, nr, dr, fp)
+    for x in eam_potentials:
+        fp.write("%d %20.16e %20.16e %s\n" % (x.atomicNumber, x.mass, x.latticeConstant, x.latticeType))
+        for i in range(nrho):
+            fp.write("% 20.16e\n" % x.embeddingFunction(i * drho))
+        for y in eam_potentials:
+            for i in range(nr):
+                fp.write("% 20.16e\n" % y.electronDensityFunction[x.species](i * dr))
+    _setfl_pairs(eam_potentials, potentials, nr, dr, True, fp)
+
+
+# ---- C05 / C04 (DL_POLY TABEAM) ---------------------------------------------
+from atsim.potentials._potential import Potential
+
+
+def _tab4(fp, func, n, step):
+    row = []
+    for i in range(n):
+        row.append("%f" % func(i * step))
+        if len(row) == 4:
+            fp.write(" ".join(row) + "\n")
+            row = []
+    if row:
+        fp.write(" ".join(row) + "\n")
+
+
+def _tabeam_head_pairs_embed(potentials, eam_potentials, nr, dr, nrho, drho, count, fp):
+    fp.write(" " * 100 + "\n")
+    fp.write("%d\n" % count)
+    table = _pair_table(potentials)
+    pairs = set()
+    for a in eam_potentials:
+        for b in eam_potentials:
+            pairs.add(tuple(sorted([a.species, b.species])))
+    for k in sorted(pairs):
+        pp = table.get(k, Potential(k[0], k[1], ZERO))
+        fp.write("pair %s %s %d 0.0 %f\n" % (pp.speciesA, pp.speciesB, nr, (nr - 1) * dr))
+        _tab4(fp, pp.energy, nr, dr)
+    for e in eam_potentials:
+        fp.write("embe %s %d 0.0 %f\n" % (e.species, nrho, (nrho - 1) * drho))
+        _tab4(fp, e.embeddingFunction, nrho, drho)
+
+
+def tabeam(potentials, eam_potentials, cutoff, nr, cutoff_rho, nrho, fp):
+    tabeam_api(nrho, cutoff_rho / (nrho - 1), nr, cutoff / (nr - 1), eam_potentials, potentials, fp)
+
+
+def tabeam_api(nrho, drho, nr, dr, eam_potentials, potentials, fp):
+    """TABEAM: declared count n(n+5)/2 = pair blocks (one per unordered element pair) + n embe + n dens;
+    each header gives n points, start 0 and end (n-1)*step and is followed by n values f(i*step)"""
+    n = len(eam_potentials)
+    _tabeam_head_pairs_embed(potentials, eam_potentials, nr, dr, nrho, drho, n * (n + 5) / 2, fp)
+    for e in eam_potentials:
+        fp.write("dens %s %d 0.0 %f\n" % (e.species, nr, (nr - 1) * dr))
+        _tab4(fp, e.electronDensityFunction, nr, dr)
+
+
+def tabeam_fs(potentials, eam_potentials, cutoff, nr, cutoff_rho, nrho, fp):
+    tabeam_fs_api(nrho, cutoff_rho / (nrho - 1), nr, cutoff / (nr - 1), eam_potentials, potentials, fp)
+
+
+def tabeam_fs_api(nrho, drho, nr, dr, eam_potentials, potentials, fp):
+    """EEAM TABEAM: 3n(n+1)/2 functions; 'dens A B' holds EAMPotential(A).electronDensityFunction[B]
+    (density at an A site from a B neighbour), B in sorted order"""
+    n = len(eam_potentials)
+    _tabeam_head_pairs_embed(potentials, eam_potentials, nr, dr, nrho, drho, 3 * n * (n + 1) / 2, fp)
+    for a in eam_potentials:
+        for b in sorted([e.species for e in eam_potentials]):
+            fp.write("dens %s %s %d 0.0 %f\n" % (a.species, b, nr, (nr - 1) * dr))
+            _tab4(fp, a.electronDensityFunction[b], nr, dr)
